@@ -168,7 +168,10 @@ class SxGen:
         if c < 0.80:   # variable / symbolic / fractional exponent (no integer shift, see ser.py)
             e = r.choice([self.const(), self.fld(), num(1, 2), num(3, 2),
                           {"k": "mul", "a": [self.const(), self.const()]}])
-            return {"k": "pow", "b": self.expr(depth - 1), "e": e}
+            # the base is never a bare (possibly negative) number: (-2)**(1/2) is not a real expression
+            b = r.choice([self.fld(), {"k": "add", "a": [self.fld(), self.coord(), num(r.choice([1, 2, 3]))]},
+                          {"k": "mul", "a": [self.fld(), self.fld()]}])
+            return {"k": "pow", "b": b, "e": e}
         if c < 0.92:
             return self.free(depth)
         if self.allow_fn_of_field:
